@@ -375,7 +375,7 @@ def main(run: Run):
     from . import validation
     validation.add_to(run, ['wb_decoder_add', 'memory_map_setters'])
     from . import ctor_l1 as _ctor_l1
-    _ctor_l1.add_to(run, ['wb_decoder_init'])
+    _ctor_l1.add_to(run, ['wb_decoder_init', 'wb_decoder_align_to'])
     return run.finish(
         explanation="wishbone.Decoder.elaborate contract: per-subordinate selection by the memory map's window range, request "
                     "copy with feature defaults, select fan-out, dense address offset, response relay under the Wishbone "
